@@ -35,7 +35,11 @@ CONSTANTS
     SaveAsSet,  \* subset of {"none", "file", "dir"}
     Modes,      \* corruption modes explored
     MayFail,    \* BOOLEAN: components that raised are part of the archive
-    MaxFaults   \* at most this many corrupted entries
+    MaxFaults,  \* at most this many corrupted entries
+    PoolSet,    \* subset of BOOLEAN: Hydration is given a thread pool (the elements of a multi-output value are
+                \* then serialised concurrently, in any completion order)
+    AssembleMode \* "index": results are assembled in element order (specified) | "completion": in the order
+                \* in which the pool finished them (exists so that TLC can show that RoundTrip is able to fail)
 
 AllKinds == {"text", "raw", "command", "cfile", "ccmd", "datasource"}
 CmdKinds == {"command", "ccmd"}               \* the kinds that carry a command and arguments (Reading, notes/C11.md)
@@ -49,9 +53,11 @@ VARIABLES
     data,       \* set of [rel, file] data files on disk
     fault,      \* [Comp -> mode | "none"]
     hyd,        \* sequence of entries hydrated so far (the glob order)
-    loaded      \* [Comp -> Loaded]  the fresh broker
+    loaded,     \* [Comp -> Loaded]  the fresh broker
+    pooled,     \* this archive is persisted with a thread pool
+    inflight    \* pooled dehydrate in progress: [c, todo (elements not yet serialised), fin (completion order)]
 
-vars == <<phase, entries, pos, meta, data, fault, hyd, loaded>>
+vars == <<phase, entries, pos, meta, data, fault, hyd, loaded, pooled, inflight>>
 
 Comp == 1..N
 
@@ -118,10 +124,13 @@ RelOf(e, c, j) ==
 (* Metadata document.                                                       *)
 NoDoc == [present |-> FALSE, readable |-> FALSE, shape |-> FALSE, name |-> 0, nerrors |-> 0, hasres |-> FALSE,
           multi |-> FALSE, res |-> <<>>]
-DocOf(e, c) ==
+DocOrd(e, c, ord) ==                    \* ord: the order in which the results are listed
     [present |-> TRUE, readable |-> TRUE, shape |-> TRUE, name |-> c,
      nerrors |-> IF e.failed THEN 1 ELSE 0, hasres |-> ~e.failed, multi |-> e.multi,
-     res |-> [j \in DOMAIN e.elems |-> [rel |-> RelOf(e, c, j), cmd |-> e.elems[j].cmd, args |-> e.elems[j].args]]]
+     res |-> [i \in DOMAIN ord |-> [rel |-> RelOf(e, c, ord[i]), cmd |-> e.elems[ord[i]].cmd,
+                                    args |-> e.elems[ord[i]].args]]]
+DocOf(e, c) == DocOrd(e, c, [j \in DOMAIN e.elems |-> j])
+NoFlight == [c |-> 0, todo |-> {}, fin |-> <<>>]
 
 Absent == [present |-> FALSE, multi |-> FALSE, elems |-> <<>>]
 
@@ -134,20 +143,46 @@ Init ==
     /\ meta = [c \in Comp |-> NoDoc] /\ data = {}
     /\ fault = [c \in Comp |-> "none"] /\ hyd = <<>>
     /\ loaded = [c \in Comp |-> Absent]
+    /\ pooled \in PoolSet /\ inflight = NoFlight
 
 (* Component c produced e (any entry of the space) and the persister ran:    *)
 (* Hydration.dehydrate(c, broker) serialises every element and writes the   *)
 (* metadata document.                                                       *)
 DehydrateWith(e) ==
-    /\ phase = "collect" /\ pos <= N
+    /\ phase = "collect" /\ pos <= N /\ inflight.c = 0
     /\ LET c == pos IN
-       /\ entries' = [entries EXCEPT ![c] = e]
-       /\ data' = data \cup {[rel |-> RelOf(e, c, j), file |-> Join(e.elems[j].lines)] : j \in DOMAIN e.elems}
-       /\ meta' = [meta EXCEPT ![c] = DocOf(e, c)]
+       IF pooled /\ e.multi
+         THEN /\ entries' = [entries EXCEPT ![c] = e]          \* marshal hands the elements to the pool
+              /\ inflight' = [c |-> c, todo |-> DOMAIN e.elems, fin |-> <<>>]
+              /\ UNCHANGED <<data, meta, pos, phase>>
+         ELSE /\ entries' = [entries EXCEPT ![c] = e]
+              /\ data' = data \cup {[rel |-> RelOf(e, c, j), file |-> Join(e.elems[j].lines)] : j \in DOMAIN e.elems}
+              /\ meta' = [meta EXCEPT ![c] = DocOf(e, c)]
+              /\ pos' = pos + 1
+              /\ phase' = IF pos = N THEN "corrupt" ELSE phase
+              /\ UNCHANGED inflight
+    /\ UNCHANGED <<fault, hyd, loaded, pooled>>
+
+(* a pool thread finishes serialising one element: ANY completion order     *)
+SerializeElem(j) ==
+    /\ phase = "collect" /\ inflight.c # 0 /\ j \in inflight.todo
+    /\ LET c == inflight.c  e == entries[c] IN
+       data' = data \cup {[rel |-> RelOf(e, c, j), file |-> Join(e.elems[j].lines)]}
+    /\ inflight' = [inflight EXCEPT !.todo = @ \ {j}, !.fin = Append(@, j)]
+    /\ UNCHANGED <<phase, entries, pos, meta, fault, hyd, loaded, pooled>>
+SerializeAny == \E j \in inflight.todo : SerializeElem(j)
+
+(* all elements done: the document lists the results in ELEMENT order        *)
+DehydrateEnd ==
+    /\ phase = "collect" /\ inflight.c # 0 /\ inflight.todo = {}
+    /\ LET c == inflight.c  e == entries[c] IN
+       meta' = [meta EXCEPT ![c] = IF AssembleMode = "completion" THEN DocOrd(e, c, inflight.fin) ELSE DocOf(e, c)]
     /\ pos' = pos + 1
     /\ phase' = IF pos = N THEN "corrupt" ELSE phase
-    /\ UNCHANGED <<fault, hyd, loaded>>
-Dehydrate == phase = "collect" /\ pos <= N /\ \E e \in {x \in EntrySpace(pos) : Applicable(x)} : DehydrateWith(e)
+    /\ inflight' = NoFlight
+    /\ UNCHANGED <<entries, data, fault, hyd, loaded, pooled>>
+
+Dehydrate == phase = "collect" /\ pos <= N /\ inflight.c = 0 /\ \E e \in {x \in EntrySpace(pos) : Applicable(x)} : DehydrateWith(e)
 
 RelsOf(c) == {meta[c].res[j].rel : j \in DOMAIN meta[c].res}
 
@@ -171,7 +206,7 @@ Corrupt ==
          /\ meta' = DamageAll(f, {c \in Comp : f[c] # "none"}, meta)
          /\ data' = {d \in data : ~\E c \in Comp : f[c] = "datagone" /\ d.rel \in RelsOf(c)}
     /\ phase' = "load"
-    /\ UNCHANGED <<entries, pos, hyd, loaded>>
+    /\ UNCHANGED <<entries, pos, hyd, loaded, pooled, inflight>>
 
 FileAt(rel) == (CHOOSE d \in data : d.rel = rel).file
 Loadable(c) ==
@@ -191,18 +226,18 @@ HydrateEntry(c) ==
     /\ phase = "load" /\ meta[c].present /\ c \notin {hyd[i] : i \in DOMAIN hyd}
     /\ hyd' = Append(hyd, c)
     /\ loaded' = IF Loadable(c) THEN [loaded EXCEPT ![meta[c].name] = Build(c)] ELSE loaded
-    /\ UNCHANGED <<phase, entries, pos, meta, data, fault>>
+    /\ UNCHANGED <<phase, entries, pos, meta, data, fault, pooled, inflight>>
 HydrateAny == \E c \in Comp : HydrateEntry(c)
 
 Finish ==
     /\ phase = "load" /\ \A c \in Comp : meta[c].present => c \in {hyd[i] : i \in DOMAIN hyd}
     /\ phase' = "done"
-    /\ UNCHANGED <<entries, pos, meta, data, fault, hyd, loaded>>
+    /\ UNCHANGED <<entries, pos, meta, data, fault, hyd, loaded, pooled, inflight>>
 
-Next == Dehydrate \/ Corrupt \/ HydrateAny \/ Finish
+Next == Dehydrate \/ SerializeAny \/ DehydrateEnd \/ Corrupt \/ HydrateAny \/ Finish
 Spec == Init /\ [][Next]_vars
 
-View == <<phase, entries, pos, meta, data, fault, {hyd[i] : i \in DOMAIN hyd}, loaded>>
+View == <<phase, entries, pos, meta, data, fault, {hyd[i] : i \in DOMAIN hyd}, loaded, pooled, inflight>>
 
 -----------------------------------------------------------------------------
 (* Properties.  The same operators judge the real traces in SerdeTrace.     *)
